@@ -22,6 +22,8 @@ PROP["jobs"].append({"harness": "h_srcack", "comp": "srcack", "driver": "srcack"
                             "engine's acks in order without gap or repeat (monitor clause C04:ack-sequence-gap / order), or the trace is not a behaviour of the M3 model"})
 PROP["lean_modules"].append("ConduitModel.Props.C02")
 
+PROP["lean_modules"].append("ConduitModel.Props.MonSound")
+
 META = {
     "text": "Lean 4 theorems. v2: the WHOLE-PASS theorem C04_v2_pass_acks_prefix (every task tree incl. nested fan-out and split runs, every fuel, plugin script, DLQ config, fan-out order and outcome: the positions acked to the source are a prefix of the batch's positions; equal to the batch when the pass returns ok), built on C04_ma_release_prefix/_next (multiAckNacker releases exactly the in-order prefix for every vote order) and the loop partition law (C04_groups_in_read_order). Connector: C02_delivered_fifo/_prefix (deferred-ack queue delivers in order, gap-free unless an ack was dropped, then nothing later is delivered). v1 (default engine): the product model Flow x Ack of pkg/lifecycle/stream is proved to satisfy the property's monitor for every topology and every event list (C04_v1_ack_sequence_is_prefix, C04_v1_fail_latch); the real node graph is tied by trace acceptance (`pipe`: every recorded trace must be a behaviour of the model; internal events are reconstructed and each is checked by the model's step). Ties: funnel event-log equality + monitors on concurrent / multi-source / slow-source runs, arbiter equality, pipe and srcack trace acceptance.",
     "note": 'Proved about the models (v2 pass: one pass, multi-batch loop by correspondence). Trusted: correspondence sampling, fakes for plugins, Go runtime/channel semantics, semaphore.Simple as FIFO ticket lock (v1).',
